@@ -257,7 +257,14 @@ def run_trading(rnd, S, cfgk, intensity=1.0, script=None, analyser=False, ids=No
         open_before = [x.order_id for x in env.broker.get_open_orders()]
         res = None
         try:
-            res = api.order_shares(oid, q)
+            if follow["rnd"].random() < 0.35:
+                # a follow-up LIMIT order below the market: it does not fill now, it must rest in the book (and expire at the close) like any other order
+                lim_ = round(bar[2] * 0.97, 2)
+                call["args"] = (oid, 100, lim_)
+                res = api.order_shares(oid, 100, price_or_style=LimitOrder(lim_))
+                tr.stats["resting_followups_from_trade_handler"] += 1
+            else:
+                res = api.order_shares(oid, q)
         except Exception as ex:
             call["exc"] = (type(ex).__name__, str(ex)[:200])
         olist = [x for x in (res if isinstance(res, (list, tuple)) else [res]) if x is not None]
@@ -895,12 +902,28 @@ def run_trading(rnd, S, cfgk, intensity=1.0, script=None, analyser=False, ids=No
                 pos_roundtrip(c)
         return g
     handlers = {"init": init, "open_auction": with_roundtrip(lambda c, b: ops(c, "AUC")), "handle_bar": with_roundtrip(lambda c, b: ops(c, "BAR"))}
-    if S.get("_pf_roundtrip"):
-        def after_trading(context):
-            env = Environment.get_instance()
+
+    def before_trading(context):
+        # an ordinary strategy looks at prices before the open (previous close): the reads themselves must not change what the auction sees
+        env = Environment.get_instance()
+        seen = {}
+        for oid_ in stocks + futs:
+            try:
+                seen[oid_] = float(env.get_last_price(oid_))
+            except Exception as ex_:
+                seen[oid_] = repr(ex_)
+        tr.events.append(("BEFORE_TRADING_CB", {"cal": env.calendar_dt, "last": seen}))
+    handlers["before_trading"] = before_trading
+
+    def after_trading(context):
+        env = Environment.get_instance()
+        # what the strategy's own after_trading callback sees: the market is closed, nothing may rest any more
+        tr.events.append(("AFTER_TRADING_CB", {"cal": env.calendar_dt, "open": [(o.order_id, o.status.name) for o in env.broker.get_open_orders()],
+                                               "live": [(i_, o.status.name) for i_, o in tr.orders.items() if not o.is_final()]}))
+        if S.get("_pf_roundtrip"):
             env.portfolio.set_state(env.portfolio.get_state())
             tr.stats["portfolio_restores_in_place"] += 1
-        handlers["after_trading"] = after_trading
+    handlers["after_trading"] = after_trading
     if script is not None:
         handlers = script(tr, handlers)
     with recorder.instrument(tr.rec):
